@@ -20,7 +20,7 @@ from .. import protocols
 from ..harness import arr, extobj, scalar
 from .. import tq
 from ..interp import State
-from ..terms import T
+from ..terms import T, vconst
 
 FLOOR = 30
 CLS = "skmatter.linear_model.OrthogonalRegression"
@@ -82,6 +82,24 @@ def check(ctx):
                 ref = ctx.call_func(I3, s3, "ref.ridge_ref.padded_predict", Xv, coef, integer(mx))
                 ctx.compare("NF-PROCRUSTES", f"predict pads new X to the fitted width [{cfg}]", N, p, ref, site_p, cfg)
                 ctx.shape_is("Shape", f"predict is (n, max) [{cfg}]", p, ("V", mx), site_p, cfg)
+    # the mode switched on the same object between two fits: predictions are those of the mode of the last fit
+    for first in (False, True):
+        for regime, order in (("M<P", [("M", "<", "P")]), ("M>P", [("M", ">", "P")])):
+            cfg = f"projector={first} then {not first} {regime}"
+            Ih, sh_ = ctx.interp(order=order, assume=protocols.assume_default), State()
+            oh = ctx.construct(Ih, sh_, cls, use_orthogonal_projector=first)
+            ctx.call_method(Ih, sh_, oh, "fit", arr("X1", "N1", "M"), arr("y1", "N1", "P"))
+            sh_.heap[oh.obj.id]["use_orthogonal_projector"] = vconst(not first)
+            ctx.call_method(Ih, sh_, oh, "fit", arr("X", "N", "M"), arr("y", "N", "P"))
+            lo = len(Ih.events)
+            ph = ctx.call_method(Ih, sh_, oh, "predict", arr("Xv", "V", "M"))
+            If, sf = ctx.interp(order=order, assume=protocols.assume_default), State()
+            of = ctx.construct(If, sf, cls, use_orthogonal_projector=not first)
+            ctx.call_method(If, sf, of, "fit", arr("X", "N", "M"), arr("y", "N", "P"))
+            pf = ctx.call_method(If, sf, of, "predict", arr("Xv", "V", "M"))
+            site_p = ctx.site(P.method(cls, "predict"))
+            ctx.no_shape_conflicts("Shape", f"predict after the mode was switched and the object refitted [{cfg}]", Ih, lo, site_p, cfg)
+            ctx.compare("NF-PROCRUSTES", f"predict after a refit in the other mode == predict of a fresh object [{cfg}]", N, ph, pf, site_p, cfg)
     # user supplied linear estimator is the one that is fitted and read
     I = ctx.interp(order=[("M", "<", "P")], assume=protocols.assume_default)
     st = State()
